@@ -95,7 +95,8 @@ def build_block_edited(AHP, b, later):
 def build_doc(d):
     """Build the document through the public API; returns the parser."""
     import AdvancedHTMLParser as AHP
-    p = AHP.AdvancedHTMLParser()
+    # `encoding` says how *bytes* given to the parser are decoded; serialising returns the tree's own characters whatever it is
+    p = AHP.AdvancedHTMLParser(encoding=d['enc']) if d.get('enc') else AHP.AdvancedHTMLParser()
     blocks = d['blocks']
     later = []
     mk = (lambda b: build_block_edited(AHP, b, later)) if d.get('via') == 'edited' else (lambda b: build_block(AHP, b))
@@ -126,7 +127,7 @@ def build_doc(d):
 
 def reparser(d):
     import AdvancedHTMLParser as AHP
-    p2 = AHP.AdvancedHTMLParser()
+    p2 = AHP.AdvancedHTMLParser(encoding=d['enc']) if d.get('enc') else AHP.AdvancedHTMLParser()
     if d.get('reuse'):
         p2.parseStr('<!DOCTYPE html PUBLIC "old"><section class="old"><i>junk<b>')
     return p2
@@ -225,6 +226,8 @@ class Check(PropCheck):
             d['via'] = ('api', 'parse', 'edited')[i % 3] if i % 6 != 4 else 'api'
             if i % 4 == 1:
                 d['reuse'] = True       # the serialisation is parsed by a parser object that parsed another document before
+            if i % 7 == 3:
+                d['enc'] = ('ascii', 'iso-8859-1', 'utf-16')[(i // 7) % 3]      # a parser constructed for another byte encoding
             yield Case(d, 'random')
         # the strict lexer against the real tokenizer on richly rendered token sequences (C02's renderer) and on
         # corrupted variants (on which lexStrict may answer none, never a different token list)
@@ -339,7 +342,7 @@ class Check(PropCheck):
     def features(self, d):
         if d['via'] == 'lex':
             return ['via:lex']
-        fs = set((['reused-parser'] if d.get('reuse') else []) + ['via:' + d['via'], 'doctype' if d['doctype'] else 'no-doctype',
+        fs = set((['reused-parser'] if d.get('reuse') else []) + (['encoding:' + d['enc']] if d.get('enc') else []) + ['via:' + d['via'], 'doctype' if d['doctype'] else 'no-doctype',
                   'single-root' if (len(d['blocks']) == 1 and d['blocks'][0][0] == 'e') else 'multi-root'])
 
         def walk(b, depth):
@@ -409,6 +412,8 @@ class Check(PropCheck):
             yield dict(d, via='api')
         if d.get('reuse'):
             yield dict(d, reuse=False)
+        if d.get('enc'):
+            yield {k: v for k, v in d.items() if k != 'enc'}
 
     # ---- both sides ------------------------------------------------------------------------------------------------
     def doc_of(self, d):
